@@ -246,6 +246,25 @@ pub fn run_case(case: &Case, props: &[&str], with_counts: bool) -> CaseResult {
         "delivery": format!("{:?}", case.delivery), "hint_delta": case.hint_delta,
         "count": stream.as_ref().map_or(-1i64, |s| if with_counts { s.count_bits() as i64 } else { -1 }),
     })];
+    // C08 "through either in-memory sink type": the same stream written into the word-based sink - bits it
+    // reports (len) and its byte export against the bytes of the byte-based sink
+    let (w64, w64_same) = match (&stream, with_counts && !oversize) {
+        (Some(s), true) => catch_unwind(AssertUnwindSafe(|| {
+            let mut m = flacenc::bitsink::MemSink::<u64>::new();
+            match s.write(&mut m) {
+                Ok(()) => {
+                    let mut dest = vec![0u8; (m.len() + 7) / 8];
+                    m.write_to_byte_slice(&mut dest);
+                    (cap31(m.len()), dest == bytes)
+                }
+                Err(_) => (-2, false),
+            }
+        }))
+        .unwrap_or((-3, false)),
+        _ => (-1, true),
+    };
+    lines[0]["w64"] = json!(w64);
+    lines[0]["w64_same"] = json!(w64_same);
     let parsed = if props.contains(&"C15") && outcome == "ok" {
         let (p, ps) = parse_back(&bytes);
         lines[0]["p15"] = p;
@@ -382,6 +401,16 @@ pub fn gen_cases(profile: &str, seed: u64, b: &Budget) -> Vec<Case> {
                         bs = [8192, 16384][(idx / 100) % 2];
                         cfg = Cfg { block_size: bs, use_lpc: idx % 200 == 53, max_parameter: 14, ..Cfg::default() };
                         bps = 16;
+                        wide = Some(1);
+                    } else if idx % 20 == 11 {
+                        // a loud attack at the head of the block, then a quiet strongly correlated tail, under a high LPC
+                        // order with coarse coefficient precision (trailing coefficients quantise to zero: the effective
+                        // order is below the configured one), fixed predictors off
+                        family = "attack".to_string();
+                        bps = 16;
+                        bs = [512usize, 1024, 256, 4096][(idx / 20) % 4];
+                        cfg = Cfg { block_size: bs, use_fixed: false, lpc_order: [24usize, 16, 20, 24][(idx / 20) % 4],
+                                    quant_precision: [4usize, 3, 5, 4][(idx / 40) % 4], max_parameter: 14, ..Cfg::default() };
                         wide = Some(1);
                     } else if idx % 5 == 2 {
                         // loud bursts in quiet low-width blocks: per-partition parameters at and above bits_per_sample - 1
